@@ -60,6 +60,7 @@ class Monitor(object):
         self.cfg = full_cfg
         self.trace = []
         self.stopped = False
+        self.was_stopped_then_started = False
         self.last_ka_sent = None
         self.conn_before_stop = set()
         self.streams = {}          # connector id -> bytes delivered
@@ -223,6 +224,7 @@ class Monitor(object):
             self.conn_before_stop = set(i for i, p in enumerate(obs['conns']) if p in ('connecting', 'connected'))
         elif k == 'start':
             if self.stopped:
+                self.was_stopped_then_started = True
                 if not any(o[0] == 'connect' for o in outs) or obs['state'] != 'CONNECT':
                     self.fail('C13', 'manual start from the stopped state did not begin connecting', 'start-reaction')
             elif prev['state'] == 'ESTABLISHED':
@@ -360,6 +362,16 @@ class Monitor(object):
             ws = [o for o in outs if o[0] == 'write']
             if len(ws) != 1 or bytes.fromhex(ws[0][2])[18] != 4:
                 self.fail('C03', 'keepalive timer expiry did not send a KEEPALIVE', 'keepalive-expiry')
+        if k == 'fire' and ev['t'] == 'retry' and prev['state'] == 'IDLE':
+            # RFC 4271 8.2.2, Idle: "any other event is ignored" - an expiry of the ConnectRetryTimer that a lost OpenSent
+            # connection left running (FSM.connection_failed restarts it, the peering then resets the state to Idle) clears
+            # itself and changes nothing else: state, other timers, connections, and nothing is written
+            rest_before = {n: v for n, v in prev['timers'].items() if n != 'retry'}
+            rest_after = {n: v for n, v in obs['timers'].items() if n != 'retry'}
+            if obs['state'] != 'IDLE' or rest_before != rest_after or obs['conns'] != prev['conns'] or \
+                    any(o[0] in ('write', 'lose', 'connect') for o in outs):
+                self.fail('C01', 'a ConnectRetryTimer expiry in Idle was not ignored: state %s, timers %r -> %r' % (
+                    obs['state'], prev['timers'], obs['timers']), 'retry-in-idle')
         if k == 'fire' and ev['t'] in ('hold', 'keepalive') and prev['state'] in ('IDLE', 'CONNECT', 'ACTIVE'):
             # RFC 4271 8.2.2: the HoldTimer and the KeepaliveTimer run in OpenSent / OpenConfirm / Established only; one that
             # is left over from a session that has ended must not act on the state machine of the next attempt
@@ -445,6 +457,20 @@ class Monitor(object):
             return ('rr',) if len(body) == 4 else None
         return ('hdr', 3)
 
+    def check_malformed_reported(self, ev, b, outs):
+        """C10: "each well-framed message yields at most one report (the decoded message, or a malformed-UPDATE report carrying
+        the raw bytes)" - an UPDATE whose ORIGIN or NEXT_HOP has length 0, or whose last attribute header is cut short, is not
+        a decoded message: it must not be handed to the application as one."""
+        from gen import session_gen as SG
+        bad = getattr(self, '_bad_updates', None)
+        if bad is None:
+            pool = dict(SG.message_pool(self.cfg['remote_as']))
+            bad = self._bad_updates = {pool[k]: k for k in ('update_origin_len0', 'update_nexthop_len0', 'update_attr_header_cut')}
+        if b not in bad:
+            return
+        if any(o[0] == 'handler' and o[1] == 'update' for o in outs):
+            self.fail('C10', 'a malformed UPDATE (%s) was handed to the application as a decoded message' % bad[b], 'malformed-as-good')
+
     def check_as_width(self, ev, b, outs, sim):
         """C05: AS numbers in AS_PATH are 4 octets wide on this connection iff both OPENs carried capability 65.
         Decided on the two probe UPDATEs (one AS_SEQUENCE [65001]) that are well-formed in exactly one width."""
@@ -452,7 +478,8 @@ class Monitor(object):
         probes = getattr(self, '_probes', None)
         if probes is None:
             pool = dict(SG.message_pool(self.cfg['remote_as']))
-            probes = self._probes = {pool['update_aspath4']: True, pool['update_aspath2']: False, pool['update_as4path_first']: False}
+            probes = self._probes = {pool['update_aspath4']: True, pool['update_aspath2']: False, pool['update_as4path_first']: False,
+                                      pool['update_aggregator4']: True, pool['update_aggregator2']: False}
         if b not in probes or any(o[0] == 'unmodelled' for o in outs):
             return
         c = ev['c']
@@ -588,6 +615,7 @@ class Monitor(object):
                     expect_unchanged('update')
                     restarts_hold('UPDATE in Established')
                     self.check_as_width(ev, b, outs, sim)
+                    self.check_malformed_reported(ev, b, outs)
                 else:
                     expect_error(cls, 5, 0)
             elif c0 == 'notification':
@@ -610,6 +638,16 @@ class Monitor(object):
             if not in_session and not scheduled:
                 self.fail('C10', 'after peer input / connection loss the agent is neither in session nor has a reconnect scheduled: '
                                  'state %s, timers %r, connections %r' % (ns, tm, obs['conns']), 'no-reconnect-scheduled')
+                if self.was_stopped_then_started:
+                    # C13: "Manual start from the stopped state begins connecting at once and automatic recovery is in force again"
+                    self.fail('C13', 'after an operator stop and start, automatic recovery is not in force again: the session / attempt '
+                                     'ended (state %s) and no reconnection is scheduled (timers %r, connections %r)' % (ns, tm, obs['conns']),
+                              'no-recovery-after-start')
+        if k == 'connfail' and not self.stopped and self.was_stopped_then_started:
+            tm = obs['timers']
+            if ns == 'IDLE' and not tm.get('idlehold') and not any(p in ('closing', 'connecting') for p in obs['conns']):
+                self.fail('C13', 'after an operator stop and start, a refused / timed-out attempt leaves the agent Idle with no reconnection '
+                                 'scheduled (timers %r)' % (tm,), 'no-recovery-after-start')
         if ns == 'ESTABLISHED' and ps != 'ESTABLISHED':
             # entered only by a KEEPALIVE on the current connection after a valid OPEN on it
             if not (k == 'chunk' and ev['c'] == obs['proto']):
